@@ -408,20 +408,10 @@ class _resolve_called_lambdas(ast.NodeTransformer):
         if len(self._arg_map_list) == 0:
             return self.generic_visit(node)
 
-        names_in_arguments = {
-            n.id
-            for arg_map in self._arg_map_list
-            for name, value in arg_map.items()
-            if not (isinstance(value, ast.Name) and value.id == name)
-            for n in ast.walk(value)
-            if isinstance(n, ast.Name)
-        }
         own_args = {}
         new_arg_list = []
         for a in node.args.args:
-            new_name = a.arg
-            while new_name in names_in_arguments:
-                new_name = f"{new_name}_{len(self._arg_map_list)}"
+            new_name = self._name_not_in_arguments(a.arg)
             own_args[a.arg] = ast.Name(id=new_name, ctx=ast.Load())
             new_arg_list.append(ast.arg(arg=new_name) if new_name != a.arg else a)
 
@@ -432,6 +422,66 @@ class _resolve_called_lambdas(ast.NodeTransformer):
         new_args = copy.copy(node.args)
         new_args.args = new_arg_list
         return ast.Lambda(args=new_args, body=new_body)
+
+    def _name_not_in_arguments(self, name: str) -> str:
+        "A name for something bound inside the body that no argument being substituted uses"
+        names_in_arguments = {
+            n.id
+            for arg_map in self._arg_map_list
+            for a_name, value in arg_map.items()
+            if not (isinstance(value, ast.Name) and value.id == a_name)
+            for n in ast.walk(value)
+            if isinstance(n, ast.Name)
+        }
+        new_name = name
+        while new_name in names_in_arguments:
+            new_name = f"{new_name}_{len(self._arg_map_list)}"
+        return new_name
+
+    def _visit_comprehension(self, node: ast.AST) -> Any:
+        """The loop variables of a comprehension hide the arguments we are substituting (other
+        than in the first iterable, which python evaluates in the enclosing scope), and must not
+        capture a name that one of those arguments uses."""
+        if len(self._arg_map_list) == 0:
+            return self.generic_visit(node)
+
+        n_frames = 0
+        new_generators = []
+        for g in node.generators:  # type: ignore
+            new_iter = self.visit(g.iter)
+            own_vars = {
+                n.id: ast.Name(id=self._name_not_in_arguments(n.id), ctx=ast.Load())
+                for n in ast.walk(g.target)
+                if isinstance(n, ast.Name)
+            }
+            new_target = copy.deepcopy(g.target)
+            for n in ast.walk(new_target):
+                if isinstance(n, ast.Name):
+                    n.id = own_vars[n.id].id
+            self._arg_map_list.append(own_vars)
+            n_frames += 1
+            new_generators.append(
+                ast.comprehension(
+                    target=new_target,
+                    iter=new_iter,
+                    ifs=[self.visit(c) for c in g.ifs],
+                    is_async=g.is_async,
+                )
+            )
+
+        new_node = copy.copy(node)
+        new_node.generators = new_generators  # type: ignore
+        for f in ("elt", "key", "value"):
+            if hasattr(new_node, f):
+                setattr(new_node, f, self.visit(getattr(new_node, f)))
+        for _ in range(n_frames):
+            self._arg_map_list.pop()
+        return new_node
+
+    visit_ListComp = _visit_comprehension
+    visit_GeneratorExp = _visit_comprehension
+    visit_SetComp = _visit_comprehension
+    visit_DictComp = _visit_comprehension
 
     def visit_Name(self, node: ast.Name) -> Any:
         "Look through the arg map to see if it is a argument"
